@@ -417,6 +417,9 @@ func verifStubUlidMake() ulid.ULID {
 }
 
 func verifStubNow() time.Time {
+	if verifClockFrozen {
+		return time.Unix(1700000000, 0).UTC()
+	}
 	verifClockSeq++
 	return time.Unix(1700000000+verifClockSeq, 0).UTC()
 }
@@ -435,3 +438,76 @@ func verifStubNextAttemptAt(m *StorageMiddleware, entry *OutboxEntry) time.Time 
 func verifStubRecord1(m *notificationMetrics, outboxID string, entry *OutboxEntry)                       {}
 func verifStubRecord2(m *notificationMetrics, outboxID string, entry *OutboxEntry, latency time.Duration) {}
 func verifStubSetPending(m *notificationMetrics, outboxID string, pending int, deadLettered int)        {}
+
+// ---- back-off unit ------------------------------------------------------------
+
+var verifClockFrozen bool
+var verifC22LastDelay time.Duration
+var verifC22Adds int
+
+// Time.Add divides by 1e9, which no available solver decides for a symbolic
+// 64-bit duration (see the guidance notes): in the back-off unit the executor
+// records the duration handed to Time.Add instead; everywhere else (and in
+// every native replay) the real Add runs.
+func verifStubTimeAdd(t time.Time, d time.Duration) time.Time {
+	if verifClockFrozen {
+		verifC22LastDelay = d
+		verifC22Adds++
+		return t
+	}
+	return t.Add(d)
+}
+
+// calls made from a verifStub* function are not redirected: this reaches the
+// real nextAttemptAt (whose own time.Now call is still the stubbed clock)
+func verifStubRealNextAttemptAt(m *StorageMiddleware, e *OutboxEntry) time.Time {
+	return m.nextAttemptAt(e)
+}
+
+// VerifC22Backoff: the real nextAttemptAt (float64 arithmetic, math.Pow) for
+// every attempt count and every configured pair of limits: the retry delay is
+// min(MinBackoff * 2^(attempts-1), MaxBackoff), hence never below MinBackoff
+// and never above MaxBackoff.
+func VerifC22Backoff() {
+	attempts := verifInt("attempts")
+	// limits of at least 1 ms (the native replay measures against the real
+	// clock, so a delay that collapses to zero must be off by more than the few
+	// microseconds a call takes) and at most 2^53 ns (104 days), below which
+	// float64 holds every nanosecond count exactly
+	minB := verifInt64("minBackoff")
+	maxB := verifInt64("maxBackoff")
+	verifAssume(attempts >= -(1<<31) && attempts <= 1<<31)
+	verifAssume(minB >= 1000000 && minB <= maxB && maxB <= 1<<53)
+	m := &StorageMiddleware{dispatcher: DispatcherConfig{MinBackoff: time.Duration(minB), MaxBackoff: time.Duration(maxB)}}
+	e := &OutboxEntry{Attempts: attempts}
+	var lo, hi int64
+	if !verifNative() {
+		verifClockFrozen = true
+		verifC22Adds = 0
+		verifStubRealNextAttemptAt(m, e)
+		verifClockFrozen = false
+		verifAssert(verifC22Adds == 1, "C22 harness: nextAttemptAt is expected to add exactly one duration to the clock")
+		lo, hi = int64(verifC22LastDelay), int64(verifC22LastDelay)
+	} else {
+		// real clock: the delay lies in [at-after, at-before]
+		before := time.Now().UTC()
+		at := verifStubRealNextAttemptAt(m, e)
+		after := time.Now().UTC()
+		lo, hi = int64(at.Sub(after)), int64(at.Sub(before))
+	}
+
+	exp := attempts - 1
+	if exp < 0 {
+		exp = 0
+	}
+	want := maxB
+	if exp < 53 && minB <= maxB>>uint(exp) {
+		want = minB << uint(exp)
+		verifCover("exponential")
+	} else {
+		verifCover("clamped")
+	}
+	verifAssert(hi >= minB, "C22: retry back-off below the configured minimum")
+	verifAssert(lo <= maxB, "C22: retry back-off above the configured maximum")
+	verifAssert(lo <= want && want <= hi, "C22: retry back-off is not min(MinBackoff*2^(attempts-1), MaxBackoff)")
+}
